@@ -96,7 +96,7 @@ def _metadir(label):
 
 def tlc(module, cfg, workers=1, timeout=600, env=None, heap="4g", extra=(), simulate=None, coverage=False):
     md = _metadir(module)
-    cmd = ["java", "-XX:+UseParallelGC", "-Xmx" + heap, "-cp", TLC_CP, "tlc2.TLC", "-workers", str(workers), "-metadir", md,
+    cmd = ["java", "-XX:+UseParallelGC", "-Xss64m", "-Xmx" + heap, "-cp", TLC_CP, "tlc2.TLC", "-workers", str(workers), "-metadir", md,
            "-noGenerateSpecTE", "-config", os.path.join(SPEC, cfg)]
     if simulate:
         cmd += ["-simulate", simulate]
@@ -131,6 +131,13 @@ def parse_tlc(out):
             r["parse_error"] = True
     if "[TIMEOUT" in out:
         r["timeout"] = True
+    # any TLC error other than the acceptance post-condition / an invariant of the spec is a failure of the machinery
+    # (evaluation error, stack overflow, ...), never a verdict about the implementation
+    for e in r["errors"]:
+        if "Postcondition" in e or "is violated" in e or "The behavior up to this point" in e or "Deadlock" in e:
+            continue
+        r["parse_error"] = True
+        r["tlc_error"] = e
     return r
 
 
@@ -221,8 +228,10 @@ def match_known(prop, harness, event, rejects):
         if m:
             names.add(m.group(1))
     for f in load_known()["findings"]:
-        if f["property"] != prop or f.get("harness") not in (None, harness):
-            continue
+        if f["property"] != prop or f.get("harness") not in (None, harness) or f.get("marker"):
+            continue      # marker-identified findings are only recognised through the spec's Known(...) marker
+        if not (f.get("event") or f.get("clauses") or f.get("where")):
+            continue      # an entry must identify the failing event / clause / input specifically
         if f.get("event") and event.get("e") != f["event"]:
             continue
         if f.get("clauses") and not (names and names <= set(f["clauses"])):
